@@ -14,7 +14,9 @@ RULE = (
     "order differs from list order); key strings of 1-3 keys x sub-method "
     "(num, ns, sn, ew, we) x optional .rev/.reverse with random spacing and "
     "case, through TractList.custom_sort, TRSList.custom_sort and "
-    "PLSSDesc.sort_tracts. Oracle: stable left-to-right model "
+    "PLSSDesc.sort_tracts; in 40% of the cases 1-3 elements are then "
+    "re-assigned in place (.trs = ...) and the list is sorted by the same "
+    "key again, judged from the order it was left in. Oracle: stable left-to-right model "
     "(pv/oracles/sort.py) with errors/undefined last (first when reversed), "
     "compared by element identity; an icontract snapshot/ensure contract on "
     "_TRSTractList.custom_sort asserts on every sort that the result is a "
@@ -29,7 +31,8 @@ ASSUMPTIONS = [
 ]
 MIN_NONTRIVIAL = {'quick': 8000, 'thorough': 200000}
 REQUIRED_MONITORS = ['boundary:custom_sort', 'boundary:sort_tracts',
-                     'contract:custom_sort', 'illegal-key']
+                     'contract:custom_sort', 'illegal-key',
+                     'resort-after-element-edit']
 
 KEYS = ['i', 't', 't.num', 't.ns', 't.sn', 'r', 'r.num', 'r.ew', 'r.we', 's',
         's.num', 'i.num']
@@ -150,6 +153,42 @@ def run_case(case, ctx, rep, pytrs):
                 dedup='|'.join(sorted(set(k.split('.')[0] + '.' +
                                            (k.split('.')[1] if '.' in k else '')
                                            for k in ks))))
+            return
+        if case.get('edits'):
+            run_again_after_edit(case, ctx, pytrs, lst,
+                                 d if kind == 'plssdesc' else None, kind, ks,
+                                 keystr)
+
+
+def run_again_after_edit(case, ctx, pytrs, lst, d, kind, ks, keystr):
+    """Elements are edited in place (.trs assigned) after the first sort;
+    the same key sorts the list again, from the order it is in now."""
+    ctx.hit('resort-after-element-edit')
+    cur = list(d.tracts) if kind == 'plssdesc' else list(lst)
+    for j, new in case['edits']:
+        if j < len(cur):
+            cur[j].trs = new
+    now = [e.trs for e in cur]
+    tagged = [(i, describe(e, pytrs)) for i, e in enumerate(cur)]
+    model = [i for i, _ in S.model_sort(tagged, ks)]
+    if kind == 'plssdesc':
+        d.sort_tracts(keystr)
+        got_objs = list(d.tracts)
+    else:
+        lst.custom_sort(keystr)
+        got_objs = list(lst)
+    pos = {id(e): i for i, e in enumerate(cur)}
+    if sorted(id(x) for x in got_objs) != sorted(pos):
+        ctx.violation('not-a-permutation', case,
+                      f"second sort by {keystr!r} lost or duplicated elements")
+        return
+    got = [pos[id(x)] for x in got_objs]
+    if got != model:
+        ctx.violation(
+            'order-differs-from-model:resort-after-edit', case,
+            f"sorted by {keystr!r}, elements re-assigned to {now}, sorted by "
+            f"the same key again: got {[now[i] for i in got]}, model "
+            f"{[now[i] for i in model]}", dedup='resort')
 
 
 def run_illegal(rng, ctx, pytrs):
@@ -205,6 +244,9 @@ def run_shard(shard, ctx):
                                                   'plssdesc']),
                 'keys': ks, 'keystr': spell_key(rng, ks),
                 'create_order': order}
+        if k >= 2 and rng.random() < 0.4:
+            case['edits'] = [[rng.randrange(k), rand_trs(rng)]
+                             for _ in range(rng.randint(1, 3))]
         run_case(case, ctx, rep, pytrs)
         if n % 10 == 0:
             run_illegal(rng, ctx, pytrs)
